@@ -22,17 +22,27 @@ def parseScripts (s : String) : Option (List (Option Nat × Res Unit String)) :=
     match it.splitOn ":" with
     | [d, r] => do
       let dt ← if d = "h" then pure none else (d.toNat?).map some
-      pure (dt, if r = "ok" then Res.ok () else Res.err r)
+      pure (dt, if r = "ok" then Res.ok () else if r = "bad" then Res.err "parse" else Res.err r)
     | _ => none
 
-def render (withTimes : Bool) : Outcome → String
+/-- Inside one millisecond the order of two *timer* events is the timer wheel's business.  It
+is observable in exactly one situation: a merged attempt becomes successful through a
+per-lookup timeout in the very millisecond in which another attempt's sleep may end.  Harness
+and driver both report such a case as `tie-suspect` (the test uses only the ±20 % window). -/
+def tieSuspect {α : Type} (delays : List Nat) : Outcome α → Bool
+  | .done _ (some (.ok _)) (t, phase, _) =>
+    phase == 1 && delays.any fun d => decide (5 * (t - d) ≤ d ∧ 5 * (d - t) ≤ d)
+  | _ => false
+
+def renderWith {α : Type} (showV : α → String) (dup : Bool) (withTimes : Bool) : Outcome α → String
   | .panic => "panic"
   | .invalid => "model-invalid"
-  | .done calls result t =>
+  | .done calls result (t, _, _) =>
     let res := match result with
       | none => "pending"
-      | some (.ok k) => if withTimes then s!"ok {k} {t}" else s!"ok {k}"
+      | some (.ok v) => if withTimes then s!"ok {showV v} {t}" else s!"ok {showV v}"
       | some (.error es) => if withTimes then s!"err {fmtList es} {t}" else s!"err {fmtList es}"
+    let calls := if dup then calls.flatMap fun c => [c, c] else calls
     if withTimes then s!"calls {fmtList (calls.map toString)} {res}" else res
 
 def handleLine (payload : String) : String :=
@@ -48,7 +58,14 @@ def handleLine (payload : String) : String :=
     let withR := kind = "stag"
     match tmo.toNat?, h.toNat?, parseDelays withR delays, parseScripts scripts with
     | some tmo, some h, some ds, some ss =>
-      render withR (simulate { tmo := tmo, horizon := h, delays := ds, scripts := ss })
+      -- the endpoint-info lookups use the fixed `DNS_TIMEOUT`
+      let tmo := if _fam = "txtn" ∨ _fam = "txti" then Generated.C34.dnsTimeoutMs else tmo
+      let sc : Scenario := { tmo := tmo, horizon := h, delays := ds, scripts := ss }
+      if _fam = "both" then
+        let o := simulateBoth sc
+        if tieSuspect (ds.map (·.1)) o then "tie-suspect"
+        else renderWith (fun (v : List Nat) => ".".intercalate (v.map toString)) true withR o
+      else renderWith (fun (v : Nat) => toString v) false withR (simulate sc)
     | _, _, _, _ => "bad-input"
   | _ => "bad-input"
 
